@@ -589,9 +589,12 @@ def run(prog: Program, res: Result, tier: str) -> None:
                                               f"nbits_to_dtype is {table}, expected {want_t}", construct="nbits_to_dtype", key="unit:nbits_to_dtype",
                                               where="sigpyproc.io.bits::nbits_to_dtype")
     fr = prog.func("sigpyproc.io.fileio", "FileReader.__init__")
-    okb = "self.bitsinfo = BitsInfo(nbits)" in norm(fr.node)
+    from ..normalform import canon as _canon, normal_form as _nf
+    okb = [e.text() for e in _nf(fr).sets("self.bitsinfo")] == [_canon("BitsInfo(nbits)")]
     init = prog.func(READERS, "FilReader.__init__")
-    okn = "self._file = FileReader(self.header.stream_info, mode='r', nbits=self.header.nbits)" in norm(init.node)
+    files_ = _nf(init).sets("self._file")
+    okn = bool(files_) and all(e.text() in (_canon("FileReader(self.header.stream_info, mode='r', nbits=self.header.nbits)"),
+                                            _canon("FileReader(self.header.stream_info, mode='rb', nbits=self.header.nbits)")) for e in files_)
     (res.ok if okb and okn else res.bad)("R10", init, init.node, "the stream is opened with the header's depth and its BitsInfo is built from it" if okb and okn else
                                          "the reader's FileReader/BitsInfo is no longer built from header.nbits", construct="FilReader.__init__", key="unit:init")
 
